@@ -45,6 +45,10 @@ PREC = {"||": 1, "&&": 2, "|": 3, "^": 4, "&": 5, "==": 6, "!=": 6, "<": 7, ">":
         "*": 9, "/": 9, "%": 9}
 
 
+EXTRA_RENDER = {}  # filled by genclass (object-level expression kinds)
+EXTRA_STMT_RENDER = {}
+
+
 def render_lit(t, v):
     if t == "int":
         return str(v)
@@ -78,7 +82,9 @@ def rexpr(e, ctx=0):
             return f"({s})" if ctx > 0 else s
         return render_lit(e["t"], v)
     if k == "var":
-        return e["name"]
+        return ("this." + e["name"]) if e.get("via_this") else e["name"]
+    if k in EXTRA_RENDER:
+        return EXTRA_RENDER[k](e, ctx)
     if k == "bin":
         p = PREC[e["op"]]
         s = f"{rexpr(e['l'], p)} {e['op']} {rexpr(e['r'], p + 1)}"
@@ -164,6 +170,8 @@ def rstmt(s, ind, out):
         for x in s["body"]:
             rstmt(x, ind + 1, out)
         out.append(f"{pad}}}")
+    elif k in EXTRA_STMT_RENDER:
+        EXTRA_STMT_RENDER[k](s, ind, out)
     else:
         raise ValueError(k)
 
@@ -269,6 +277,9 @@ def gen_expr(draw, sc, t, depth, allow_call=True, pure_only=False):
             choices += ["bitop", "bitop", "bitnot", "cast"]
         if t == "string":
             choices += ["concat", "concat"]
+        extra = getattr(sc, "extra_exprs", None)
+        if extra is not None and not pure_only and not getattr(sc, "pure_expr_only", False) and extra(t):
+            choices += ["extra", "extra", "extra"]
         if not pure_only:
             arrs = [v for v in sc.vars if v["t"] == t + "[]"]
             if arrs:
@@ -279,9 +290,15 @@ def gen_expr(draw, sc, t, depth, allow_call=True, pure_only=False):
     d = depth - 1
     if c == "lit":
         return draw(gen_lit(t))
+    if c == "extra":
+        mk = draw(st.sampled_from(sc.extra_exprs(t)))
+        return mk(draw, d)
     if c == "var":
         v = draw(st.sampled_from(vs))
-        return {"k": "var", "t": t, "name": v["name"]}
+        node = {"k": "var", "t": t, "name": v["name"]}
+        if v.get("field") and not v.get("static"):
+            node["via_this"] = draw(st.booleans())
+        return node
     if c == "arith":
         op = draw(st.sampled_from(["+", "-", "*", "+"]))
         # operand types whose promotion is t
@@ -468,9 +485,18 @@ def gen_block(draw, sc, nstmts, depth, ret_t, in_loop, allow_echo):
     """List of statements; variables declared here go out of scope at the end (names stay reserved)."""
     mark = len(sc.vars)
     out = []
+    sc.in_loop = in_loop
     for _ in range(nstmts):
-        out.append(draw(gen_stmt(sc, depth, ret_t, in_loop, allow_echo)))
+        s = draw(gen_stmt(sc, depth, ret_t, in_loop, allow_echo))
+        sc.in_loop = in_loop
+        if s["k"] == "seq":
+            out += s["body"]
+        else:
+            out.append(s)
     del sc.vars[mark:]
+    hook = getattr(sc, "on_scope_exit", None)
+    if hook is not None:
+        hook(mark)
     return out
 
 
@@ -489,10 +515,16 @@ def gen_stmt(draw, sc, depth, ret_t, in_loop, allow_echo):
         choices += ["callstmt", "callstmt"]
     if ret_t != "void" and depth > 0 and (not ret_t.endswith("[]") or sc.visible(ret_t)) and draw(st.integers(0, 6)) == 0:
         choices += ["earlyret"]
+    extra_s = getattr(sc, "extra_stmts", None)
+    if extra_s is not None and extra_s():
+        choices += ["extra_stmt"] * getattr(sc, "extra_weight", 3)
     c = draw(st.sampled_from(choices))
     sc.pure_expr_only = False
+    if c == "extra_stmt":
+        mk = draw(st.sampled_from(extra_s()))
+        return mk(draw, depth)
     if c == "decl":
-        t = draw(st.sampled_from(SCALARS + SCALARS + ARRAYS))
+        t = draw(st.sampled_from(getattr(sc, "decl_types", None) or (SCALARS + SCALARS + ARRAYS)))
         name = fresh_name(draw, sc)
         if t.endswith("[]"):
             if draw(st.integers(0, 2)) == 0:
@@ -519,6 +551,8 @@ def gen_stmt(draw, sc, depth, ret_t, in_loop, allow_echo):
         if it == "long" and draw(st.booleans()):
             it = "int"
         e = draw(gen_expr(sc, it, 2))
+        if v.get("field") and not v.get("static") and draw(st.booleans()):
+            return {"k": "fset", "obj": {"k": "this", "t": sc.this_class}, "name": v["name"], "e": e}
         if draw(st.integers(0, 5)) == 0:
             return {"k": "expr", "e": {"k": "assign", "t": v["t"], "name": v["name"], "e": e}}
         return {"k": "assign", "name": v["name"], "e": e}
@@ -539,7 +573,7 @@ def gen_stmt(draw, sc, depth, ret_t, in_loop, allow_echo):
         ie = draw(gen_expr(sc, "int", 1, False, False)) if mode == 0 else lit("int", draw(st.integers(0, max(0, n - 1))))
         return {"k": "aset", "name": v["name"], "i": _no_neg_const(ie), "e": draw(gen_expr(sc, elem_type(v["t"]), 2))}
     if c == "echo":
-        t = draw(st.sampled_from(SCALARS + SCALARS + ARRAYS))
+        t = draw(st.sampled_from(getattr(sc, "decl_types", None) or (SCALARS + SCALARS + ARRAYS)))
         if t.endswith("[]"):
             vs = sc.visible(t)
             if not vs:
@@ -723,7 +757,7 @@ def classic_program(draw, min_funcs=0, max_funcs=4):
 
 def walk_exprs(e, fn):
     fn(e)
-    for key in ("l", "r", "e", "i"):
+    for key in ("l", "r", "e", "i", "obj"):
         if isinstance(e.get(key), dict):
             walk_exprs(e[key], fn)
     for key in ("args", "elems"):
@@ -734,7 +768,7 @@ def walk_exprs(e, fn):
 def walk_stmts(body, fs, fe):
     for s in body:
         fs(s)
-        for key in ("init", "c", "e", "i", "inc"):
+        for key in ("init", "c", "e", "i", "inc", "obj"):
             v = s.get(key)
             if isinstance(v, dict):
                 if "k" in v and v["k"] in ("decl",):
